@@ -265,7 +265,10 @@ def spell_chunk(text, charset, rng, sp, stats):
             out.append(ch)
             last = None
             continue
-        for b in ch.encode(charset):
+        bs = ch.encode(charset)
+        if ord(ch) >= 0x80 and max(bs) < 0x80:
+            stats['_ascii_bytes_letter_escaped'] = 1     # D27: a letter the charset puts on ASCII byte positions, spelled as escapes
+        for b in bs:
             t, last = spell_byte(b, rng, sp['forms'])
             out.append(t)
             stats[last] = stats.get(last, 0) + 1
@@ -438,6 +441,7 @@ def render(cat, charset, rng, sp):
     for c in cat.get('trailing_comments', []):
         P.line('# ' + c)          # trailing translator comments are dropped by design (Codecs.open)
     facts['split_multibyte'] = P.split_multibyte
+    facts['ascii_bytes_letter_escaped'] = bool(P.stats.pop('_ascii_bytes_letter_escaped', 0))
     eol = '\r\n' if sp['crlf'] else '\n'
     text = eol.join(P.lines) + (eol if (P.lines and rng.random() < 0.9) else '')
     raw = text.encode(charset)
@@ -459,10 +463,14 @@ def gen_text(rng, alphabet, maxlen=12, allow_empty=True):
     return ''.join(rng.choice(alphabet) for _ in range(n))
 
 
-def gen_catalog(rng, charset_name, rich):
+def gen_catalog(rng, charset_name, rich, extra_alpha=()):
     alpha = list(LETTERS) + ['\\', '"', '\n', '\t', '\r', '\x07', '\x08', '\x0c', '\x0b', '\x00', '\x1b', '\x7f', '%', 'x', 'n', '8', '9', '7', 'a']
     if rich:
         alpha += list(NONASCII) + SPLITTERS + UTF8_LOOKALIKES
+    alpha += list(extra_alpha) * 3
+    # texts that look like escape sequences once their backslash is spelled as "\\\\": a literal backslash followed by x + hex digit(s),
+    # octal digits or an escape letter (the loader must not read the pair as an escape)
+    alpha += ['\\x5', '\\xA', '\\x5z', '\\x', '\\7', '\\12', '\\n', '\\t', '\\"', '\\\\x41', 'C:\\x1\\bin']
     calpha = [c for c in alpha if c not in '\n'] + [' ', '#', ',', ':', '|', '~', '.']
 
     def ctext(nonempty=True):
@@ -523,13 +531,23 @@ def gen_spelling(rng):
             'crlf': rng.random() < 0.15}
 
 
-def charsets():
+# the 105 bytes the tool probes at the pinned commit (kept here so that an edit of the tool's own list is judged against it)
+REPERTOIRE = bytes([0, 4, 7, 8, 9, 10, 11, 12, 13, 27] + list(range(32, 127)))
+# letters of the charsets the tool supplies codecs for (VISCII: the six letters it puts on C0 positions come first)
+OWN_LETTERS = {'VISCII': 'ẲẴẪỶỸỴếệạđÀ', 'KOI8-RU': 'ЎўҐґЖяІї', 'GEORGIAN-PS': 'აბგდევ', 'KOI8-T': 'ҒғҚқҲҳЖ', 'EUC-TW': '中日語一丁'}
+
+
+def charsets(python=True):
+    """supported charsets in which the pinned ASCII repertoire decodes to itself; python=False: also the ones served by the tool's own codecs"""
     _setup_impl()
     E = _impl['encodings']
     out = []
-    for name in E.get_portable_encodings(python=True):
-        if E.is_ascii_compatible_encoding(name):
-            out.append(name)
+    for name in E.get_portable_encodings(python=python):
+        try:
+            if REPERTOIRE.decode(name) == REPERTOIRE.decode('ascii'):
+                out.append(name)
+        except (UnicodeError, LookupError):
+            continue
     return out
 
 
@@ -671,6 +689,8 @@ def classify_failure(facts, raw):
         return 'D22'
     if facts['split_multibyte']:
         return 'D23'
+    if facts.get('ascii_bytes_letter_escaped'):
+        return 'D27'
     return None
 
 
@@ -787,6 +807,22 @@ def check(ctx):
             raw, expected, facts, st = render(cat, cs, rng, sp)
             for k, v in st.items():
                 item_stats[k] = item_stats.get(k, 0) + v
+            files.append((raw, expected, facts, {'charset': cs, 'spelling': sp}))
+    # the charsets served by the tool's own codecs, with catalogs written in their own letters
+    own = [cs for cs in charsets(python=False) if cs not in css]
+    ctx.stats['charsets_own_codecs'] = own
+    for cs in own:
+        letters = OWN_LETTERS.get(cs.upper(), '')
+        for i in range(12 if quick else 200):
+            cat0 = gen_catalog(rng, 'X', False, extra_alpha=letters)
+            if not stateless_ok(text_of_catalog(cat0), cs):
+                skipped += 1
+                continue
+            cat = dict(cat0, charset_name=cs)
+            cat['entries'] = [dict(e) for e in cat0['entries']]
+            cat['entries'][0]['msgstr'] = cat0['entries'][0]['msgstr'].replace('charset=X', 'charset=' + cs)
+            sp = gen_spelling(rng)
+            raw, expected, facts, st = render(cat, cs, rng, sp)
             files.append((raw, expected, facts, {'charset': cs, 'spelling': sp}))
     ctx.stats['charset_cannot_encode_catalog'] = skipped
     ctx.stats['escape_items'] = item_stats
